@@ -138,6 +138,15 @@ func addFuel(t *Term, fuel *Term, rec map[string]bool) *Term {
 
 // BuildQuery renders facts ∧ ¬goal.
 func (e *Engine) BuildQuery(facts []*Term, goal *Term, solver string, lenBound bool, fuel int, home string) (string, error) {
+	// home: "<package>" or "<package>|<revealed symbol>|..." (see solve.go)
+	homePkg := home
+	revealed := map[string]bool{}
+	if i := strings.Index(home, "|"); i >= 0 {
+		homePkg = home[:i]
+		for _, r := range strings.Split(home[i+1:], "|") {
+			revealed[strings.TrimSpace(r)] = true
+		}
+	}
 	q := &queryBuilder{e: e, ops: map[string]bool{}, sorts: map[string]*Sort{}, consts: map[string]*Term{}, syms: map[*SpecSym]bool{},
 		exts: map[string]*ExtSym{}, lits: map[string]*Term{}, litAr: map[string]map[int]bool{}}
 	neg := Not(goal)
@@ -377,6 +386,7 @@ func (e *Engine) BuildQuery(facts []*Term, goal *Term, solver string, lenBound b
 		extNames = append(extNames, n)
 	}
 	sort.Strings(extNames)
+	declaredExt := map[string]bool{}
 	for _, n := range extNames {
 		x := q.exts[n]
 		var as []string
@@ -384,6 +394,10 @@ func (e *Engine) BuildQuery(facts []*Term, goal *Term, solver string, lenBound b
 			as = append(as, a.Name)
 		}
 		for i, nm := range x.names {
+			if declaredExt[nm] {
+				continue
+			}
+			declaredExt[nm] = true
 			p("(declare-fun %s (%s) %s)", smtName(nm), strings.Join(as, " "), x.sorts[i].Name)
 		}
 	}
@@ -526,9 +540,15 @@ func (e *Engine) BuildQuery(facts []*Term, goal *Term, solver string, lenBound b
 		if !s.Recursive {
 			continue
 		}
-		if home != "" && len(s.names) > 0 && !strings.HasPrefix(s.names[0], home+".") {
+		if home != "" && len(s.names) > 0 && !strings.HasPrefix(s.names[0], homePkg+".") && !strings.HasPrefix(s.names[0], "std.") && !revealed[s.names[0]] {
 			// a recursive spec function of another package (reachable only through the contract of a
-			// pure function of that package) stays opaque here: no unfolding axiom (fewer hypotheses)
+			// pure function of that package) stays opaque here: no unfolding axiom (fewer hypotheses);
+			// only "fuel does not matter", so that hypotheses and goal speak about the same value
+			for i, n := range s.names {
+				appS := App(n, s.ResSorts[i], append([]*Term{App("SF", SFuel, fu)}, s.Params...)...)
+				app0 := App(n, s.ResSorts[i], append([]*Term{fu}, s.Params...)...)
+				p("(assert %s)", Forall(append([]*Term{fu}, s.Params...), Eq(appS, app0), []*Term{appS}))
+			}
 			continue
 		}
 		for i, n := range s.names {
